@@ -57,7 +57,7 @@ int main(int argc, char** argv) {
                 cand.push_back(d2.simplify());
             }
             if (i == j) {
-                bool z = !dd.inf && !dd.lazy;
+                bool z = !dd.inf;   // sqrt(0) may be carried lazily: only the radicand matters
                 z3::expr post = c.bool_val(z);
                 if (z) { post = post && (dd.n == 0); for (int k = 0; k < 3; k++) post = post && !c.bool_val(Dm(i, i, k).inf || Fm(i, i, k).inf) && (Dm(i, i, k).inf ? c.bool_val(false) : (Dm(i, i, k).n == 0)) && (Fm(i, i, k).inf ? c.bool_val(false) : (Fm(i, i, k).n == 0)); }
                 run.ob("zero diagonal" + tag, post);
